@@ -4,6 +4,7 @@ import (
 	"bytes"
 	"encoding/json"
 	"fmt"
+	"os"
 	"strings"
 	"time"
 
@@ -16,11 +17,11 @@ import (
 func init() { register("C18", genC18) }
 
 type c18Desc struct {
-	Order   string `json:"order"` // P,R,N | P,R,- | P,R,E | P,R,I | R,P | noP | P,R,X | sweep | creds | nosnapshot
-	HookMs  int64  `json:"hook_timeout_ms"`
-	Delta   int    `json:"delta_ms,omitempty"`
-	EType   string `json:"error_type,omitempty"`
-	NExt    int    `json:"extensions"`
+	Order  string `json:"order"` // P,R,N | P,R,- | P,R,E | P,R,I | R,P | noP | P,R,X | sweep | creds | nosnapshot
+	HookMs int64  `json:"hook_timeout_ms"`
+	Delta  int    `json:"delta_ms,omitempty"`
+	EType  string `json:"error_type,omitempty"`
+	NExt   int    `json:"extensions"`
 }
 
 func (d c18Desc) id() string {
@@ -37,7 +38,7 @@ func genC18(tier string, seed int64) []Case {
 		seen[d.id()] = true
 		cases = append(cases, Case{ID: d.id(), Class: d.Order, Desc: d, Timeout: 60 * time.Second, Run: func(c *Ctx) { runC18(c, d) }})
 	}
-	etypes := []string{"Runtime.HookFailed", "Function.Oops", "bogus type", "xRuntime.Fooy", ""}
+	etypes := []string{"Runtime.HookFailed", "Function.Oops", "bogus type", "xRuntime.Fooy", "", "Runtime.Hook, secret=hunter2", "Function.Err.Sub", "Runtime.Ok\",\"injected\":\"yes"}
 	for n := 0; n <= 1; n++ {
 		for _, h := range []int64{150, 300} {
 			add(c18Desc{Order: "P,R,N", HookMs: h, NExt: n})
@@ -99,8 +100,19 @@ func runC18(c *Ctx, d c18Desc) {
 		}
 		return vh.ExecPlan{Behave: w.RtLoop(RtOpts{})}
 	}
+	// the emulator's own process environment carries credentials too (that is how the RIE binary gets them):
+	// in snapshot mode they must not reach the runtime's environment either (cases of one process run one after the other)
+	procCreds := map[string]string{"AWS_ACCESS_KEY_ID": "AKIA-PROCESS-ENV", "AWS_SECRET_ACCESS_KEY": "secret-process-env", "AWS_SESSION_TOKEN": "session-process-env"}
+	if snapshot && d.HookMs%300 == 0 {
+		for k, v := range procCreds {
+			os.Setenv(k, v)
+		}
+	}
 	w.E.Init()
 	rtp := w.E.WaitRuntime(1, 5*time.Second)
+	for k := range procCreds {
+		os.Unsetenv(k)
+	}
 	if rtp == nil {
 		c.Inconclusive("runtime not started")
 		return
@@ -145,7 +157,7 @@ func runC18(c *Ctx, d c18Desc) {
 		r := credsGet(probe, token)
 		var got struct {
 			AccessKeyId, SecretAccessKey, Token string
-			Expiration                         time.Time
+			Expiration                          time.Time
 		}
 		json.Unmarshal(r.Body, &got)
 		c.Check(r.Status == 200 && got.AccessKeyId == wantKey, "credentials_most_recent", "C18/credentials-stale/"+label, fmt.Sprintf("credentials endpoint returned key %q, expected %q (%s)", got.AccessKeyId, wantKey, label), nil)
